@@ -29,6 +29,7 @@ import (
 	"github.com/thought-machine/please/src/generate"
 	"github.com/thought-machine/please/src/metrics"
 	"github.com/thought-machine/please/src/process"
+	"github.com/thought-machine/please/src/verifhook"
 	"github.com/thought-machine/please/src/version"
 )
 
@@ -61,6 +62,9 @@ var successfulLocalTargetBuildDuration = metrics.NewHistogramVec(
 // Build implements the core logic for building a single target.
 func Build(state *core.BuildState, target *core.BuildTarget, remote bool) {
 	state = state.ForTarget(target)
+	if verifhook.Enabled {
+		verifhook.Event("build_start", target.Label.String(), verifDepStates(target))
+	}
 	target.SetState(core.Building)
 	start := time.Now()
 	if err := buildTarget(state, target, remote); err != nil {
@@ -212,6 +216,7 @@ func buildTarget(state *core.BuildState, target *core.BuildTarget, runRemotely b
 		state.LogBuildResult(target, core.TargetBuilding, "Acquiring target lock...")
 		file := core.AcquireExclusiveFileLock(target.BuildLockFile())
 		defer core.ReleaseFileLock(file)
+		verifhook.Point("build.lockAcquired")
 		state.LogBuildResult(target, core.TargetBuilding, "Preparing...")
 
 		// Ensure we have downloaded any previous dependencies if that's relevant.
@@ -320,10 +325,12 @@ func buildTarget(state *core.BuildState, target *core.BuildTarget, runRemotely b
 		}
 
 		state.LogBuildResult(target, core.TargetBuilding, target.BuildingDescription)
+		verifhook.Point("build.beforeCommand")
 		metadata, err = build(state, target, cacheKey)
 		if err != nil {
 			return err
 		}
+		verifhook.Point("build.afterCommand")
 
 		// Add optional outputs to target metadata
 		metadata.OptionalOutputs = make([]string, 0)
@@ -375,14 +382,17 @@ func buildTarget(state *core.BuildState, target *core.BuildTarget, runRemotely b
 		return fmt.Errorf("failed to store target build metadata for %s: %w", target.Label, err)
 	}
 
+	verifhook.Point("build.afterMetadata")
 	state.LogBuildResult(target, core.TargetBuilding, "Collecting outputs...")
 	outs, outputsChanged, err := moveOutputs(state, target)
 	if err != nil {
 		return fmt.Errorf("error moving outputs for target %s: %w", target.Label, err)
 	}
+	verifhook.Point("build.afterMoveOutputs")
 	if _, err = calculateAndCheckRuleHash(state, target); err != nil {
 		return fmt.Errorf("failed to calculate hash: %w", err)
 	}
+	verifhook.Point("build.afterRuleHash")
 	if outputsChanged {
 		target.SetState(core.Built)
 	} else {
@@ -403,7 +413,9 @@ func buildTarget(state *core.BuildState, target *core.BuildTarget, runRemotely b
 				storeInCache(state.Cache, target, cacheKey, nil)
 			}
 		}
+		verifhook.Point("build.beforeStore")
 		storeInCache(state.Cache, target, newCacheKey, outs)
+		verifhook.Point("build.afterStore")
 	}
 	// Clean up the temporary directory once it's done.
 	if state.CleanWorkdirs {
@@ -708,6 +720,7 @@ func moveOutputs(state *core.BuildState, target *core.BuildTarget) ([]string, bo
 		if !core.PathExists(tmpOutput) {
 			return nil, true, fmt.Errorf("rule %s failed to create output %s", target.Label, tmpOutput)
 		}
+		verifhook.Point("build.moveOutput")
 		outputChanged, err := moveOutput(state, target, tmpOutput, realOutput)
 		if err != nil {
 			return nil, true, fmt.Errorf("failed to move output %s: %w", output, err)
@@ -755,6 +768,7 @@ func moveOutput(state *core.BuildState, target *core.BuildTarget, tmpOutput, rea
 		if err := fs.RemoveAll(realOutput); err != nil {
 			return true, err
 		}
+		verifhook.Point("build.moveOutput.removedOld")
 	}
 	state.PathHasher.MoveHash(tmpOutput, realOutput)
 	// Check if we need a directory for this output.
